@@ -354,6 +354,10 @@ func buildFlow(p P) flow {
 			if b >= 100 && len(v) > 0 {
 				v[len(v)-1] = ristBlind(p.Seed, b, "degenerate")
 			}
+			if b == 200 && len(v) > 1 {
+				// legal: the same blind at the first and the last position of the batch
+				v[len(v)-1] = append([]byte{}, v[0]...)
+			}
 			switch b {
 			case 110: // no blinds at all
 				v = nil
@@ -571,7 +575,7 @@ func runDegenerate(p P) (string, *mc.Viol) {
 }
 
 func runPairSafe(p P) (out string, v *mc.Viol) {
-	if p.I >= 100 {
+	if p.I >= 100 && p.I < 200 {
 		if pn := mc.CatchStack(func() { out, v = runDegenerate(p) }); pn != "" {
 			return "panic", &mc.Viol{Sig: fmt.Sprintf("type%d fixed-blind issuance panics: %s", p.T, trunc(pn, 50)), What: p.label() + ": " + pn}
 		}
@@ -1009,6 +1013,12 @@ func main() {
 	}
 	for _, kind := range []int{110, 111, 112} {
 		cases = append(cases, P{T: 5, Key: oprfKeys[0], In: 0, Batch: 2, I: kind, J: kind, Seed: r.Seed})
+	}
+	// a blind vector that repeats a blind is as good as any other: same tokens as under distinct blinds
+	for _, k := range oprfKeys {
+		for _, b := range []int{2, 3} {
+			cases = append(cases, P{T: 5, Key: k, In: 0, Batch: b, I: 200, J: 1, Seed: r.Seed}, P{T: 5, Key: k, In: 1, Batch: b, I: 4, J: 200, Seed: r.Seed})
+		}
 	}
 
 	// ---- vectors ----
